@@ -195,6 +195,8 @@ def run_impl(net, itf, X, T, mapping, ovt=None, ort=None, var=None):
     if var.get("int_dtype") and all(float(v).is_integer() for r in X for v in r):
         Xa = Xa.astype(int)
     Xa_before = Xa.copy()
+    lim_before = net.magnitudes.copy()
+    mat_before = None if net.constraint_matrix is None else net.constraint_matrix.copy()
     out = {"notes": []}
     try:
         held = getattr(net, "_verif_info", None)
@@ -271,6 +273,10 @@ def run_impl(net, itf, X, T, mapping, ovt=None, ort=None, var=None):
     try:
         if not np.array_equal(Xa, Xa_before):
             notes.append("a checker modified the schedule matrix it was given")
+        if not np.array_equal(net.magnitudes, lim_before) or (
+                mat_before is not None and not np.array_equal(net.constraint_matrix, mat_before)):
+            notes.append("a feasibility query changed the network's own limits / constraint matrix (limits %s -> %s)" % (
+                [float(x) for x in lim_before][:3], [float(x) for x in net.magnitudes][:3]))
         if {k: [float(x) for x in v] for k, v in load.items()} != load_before:
             notes.append("Interface.is_feasible modified the mapping it was given")
         if held_cur is not None and not np.array_equal(held_cur[0], held_cur[1]):
